@@ -202,12 +202,22 @@ class LoaderHooks(ai.Hooks):
                 return None
             return [(("enum", ai.RESULT, 0, (("sym", "PARSED:" + tn),)), mon.set(parses=seq + ((tn, True),))),
                     (("enum", ai.RESULT, 1, (("sym", "PERR"),)), mon.set(parses=seq + ((tn, False),)))]
+        if p == "core::str::<impl str>::strip_prefix" and len(args) == 2 and term.get("to") is not None:
+            # `tag.strip_prefix("tag:yaml.org,2002:")` followed by a comparison of the rest: the comparison is with prefix + literal
+            pre = a.deref_val(st, args[1])
+            subj = a.deref_val(st, args[0])
+            if pre is not None and pre[0] == "str" and not (subj is not None and subj[0] == "str"):
+                return [(("enum", ai.OPTION, 1, (("sym", "SUFFIX\x02" + pre[1]),)), mon), (("enum", ai.OPTION, 0, ()), mon.add("strne", pre[1] + "*"))]
         if decl in ("std::cmp::PartialEq::eq", "std::cmp::PartialEq::ne") and len(args) == 2 and not callee.get("local"):
             consts = [a.deref_val(st, x) for x in args]
             lit = [c[1] for c in consts if c is not None and c[0] == "str"]
             if len(lit) == 1:
+                pre = ""
+                for c in consts:
+                    if c is not None and c[0] == "sym" and c[1].startswith("SUFFIX\x02"):
+                        pre = c[1].split("\x02", 1)[1].rstrip("*")
                 eq = decl.endswith("eq")
-                return [(("bool", eq), mon.add("streq", lit[0])), (("bool", not eq), mon.add("strne", lit[0]))]
+                return [(("bool", eq), mon.add("streq", pre + lit[0])), (("bool", not eq), mon.add("strne", pre + lit[0]))]
         if p == "std::vec::Vec::push" and len(args) == 2:
             v = a.resolve(st, args[1])
             if v[0] == "enum" and v[1] == MV:
